@@ -304,6 +304,9 @@ Definition server_has_capability_code : list dstmt :=
 (* channel/sendinteractive.go Channel.sendInteractive *)
 Definition send_interactive_code : list dstmt :=
   [DCall "defer close(cr)"; DRange "e" "events" [DAssign "i" "index of e"; DAssign "prompts" "op.CompletePatterns"; DIf (DNot (DEq "e.ChannelResponse" """""")) [DAssign "prompts" "append(prompts, regexp.MustCompile(e.ChannelResponse))"] [DAssign "prompts" "append(prompts, c.PromptPattern)"]; DAssign "err" "c.Write([]byte(e.ChannelInput), e.HideInput)"; DIf (DNot (DEq "err" "nil")) [DCall "cr <- &result{b: nil, err: err}"; DReturn ""] []; DIf (DAnd (DNot (DEq "e.ChannelResponse" """""")) (DNot (DAtom "e.HideInput"))) [DCall "readUntilF(ctx, []byte(e.ChannelInput))"; DIf (DNot (DEq "err" "nil")) [DCall "cr <- &result{b: nil, err: err}"; DReturn ""] []; DAssign "b" "append(b, nb...)"] []; DAssign "err" "c.WriteReturn()"; DIf (DNot (DEq "err" "nil")) [DCall "cr <- &result{b: nil, err: err}"; DReturn ""] []; DCall "c.ReadUntilAnyPrompt(ctx, prompts)"; DIf (DNot (DEq "err" "nil")) [DCall "cr <- &result{b: nil, err: err}"; DReturn ""] []; DAssign "b" "append(b, pb...)"; DIf (DAnd (DAtom "i < len(events)-1") (DAtom "len(op.CompletePatterns) > 0")) [DAssign "done" "false"; DRange "p" "op.CompletePatterns" [DIf (DAtom "p.Match(pb)") [DAssign "done" "true"; DBreak] []]; DIf (DAtom "done") [DBreak] []] []]; DCall "cr <- &result{b: c.processOut(b, false), err: nil}"].
+(* channel/sendinput.go Channel.SendInputB *)
+Definition send_input_code : list dstmt :=
+  [DCall "NewOperation(opts...)"; DIf (DNot (DEq "err" "nil")) [DReturn "nil, err"] []; DAssign "readUntilF" "c.ReadUntilFuzzy"; DIf (DAtom "op.ExactMatchInput") [DAssign "readUntilF" "c.ReadUntilExplicit"] []; DAssign "cr" "make(chan *result)"; DCall "context.WithTimeout(context.Background(), c.GetTimeout(op.Timeout))"; DCall "defer cancel()"; DRange "go" "once" [DAssign "err" "c.Write(input, false)"; DIf (DNot (DEq "err" "nil")) [DCall "cr <- &result{b: b, err: err}"; DBreak] []; DCall "readUntilF(ctx, input)"; DIf (DNot (DEq "err" "nil")) [DCall "cr <- &result{b: b, err: err}"; DBreak] []; DAssign "err" "c.WriteReturn()"; DIf (DNot (DEq "err" "nil")) [DCall "cr <- &result{b: b, err: err}"; DBreak] []; DIf (DNot (DAtom "op.Eager")) [DIf (DEq "len(op.InterimPromptPatterns)" "0") [DCall "c.ReadUntilPrompt(ctx)"] [DAssign "prompts" "[]*regexp.Regexp{c.PromptPattern}"; DAssign "prompts" "append(prompts, op.InterimPromptPatterns...)"; DCall "c.ReadUntilAnyPrompt(ctx, prompts)"]; DIf (DNot (DEq "readErr" "nil")) [DCall "cr <- &result{b: b, err: readErr}"; DBreak] []; DAssign "b" "append(b, nb...)"] []; DCall "cr <- &result{ b: c.processOut(b, op.StripPrompt), err: nil, }"]; DAssign "r" "<-cr"; DIf (DNot (DEq "r.err" "nil")) [DIf (DAtom "errors.Is(r.err, context.DeadlineExceeded)") [DReturn "nil, fmt.Errorf( ""%w: channel timeout sending input to device"", util.ErrTimeoutError, )"] []; DReturn "nil, r.err"] []; DReturn "r.b, nil"].
 (* the option loops of the constructors (C19) *)
 Definition option_loops : list (string * dstmt) := [
   ("driver/generic/driver.go NewDriver",
